@@ -67,9 +67,9 @@ theorem categoryDeserialize_congr (t1 t2 : Str) (h : catLines t1 = catLines t2) 
   simp only [catLines] at h
   rw [h]
 
-theorem catLines_comment (W : List Str) (hnl : ∀ w ∈ W, '\n' ∉ w) :
+theorem catLines_comment (W : List Str) (hnl : ∀ w ∈ W, NoBreak w) :
     catLines (unlines (W ++ [['#']])) = catLines (unlines W) := by
-  have hnl' : ∀ w ∈ W ++ [['#']], '\n' ∉ w := by
+  have hnl' : ∀ w ∈ W ++ [['#']], NoBreak w := by
     intro w hw
     rcases List.mem_append.mp hw with h | h
     · exact hnl w h
@@ -251,7 +251,7 @@ theorem closeSegs_mkSegs (cats : List (Str × Cols)) (Ws : List (List Str)) (h :
 theorem header_facts (bname : Str) (hb : NameOk bname) :
     isEmptyLine (sData ++ bname) = false ∧ isLoopStart (sData ++ bname) = false ∧
     parseCategoryName (sData ++ bname) = none ∧ parseDataBlockName (sData ++ bname) = some bname ∧
-    '\n' ∉ sData ++ bname := by
+    NoBreak (sData ++ bname) := by
   have hnows : ∀ c ∈ sData ++ bname, isWs c = false := by
     intro c hc
     rcases List.mem_append.mp hc with h | h
@@ -279,7 +279,7 @@ theorem block_roundtrip (bname : Str) (cats : List (Str × Cols)) (hb : NameOk b
   refine ⟨Ws, hWs, blockSerialize_lines bname cats Ws hWs, ?_⟩
   obtain ⟨hh1, hh2, hh3, _, hh5⟩ := header_facts bname hb
   -- no line break inside any line
-  have hsegnl : ∀ l ∈ segLines Ws, '\n' ∉ l := by
+  have hsegnl : ∀ l ∈ segLines Ws, NoBreak l := by
     clear hcats hnd
     induction hWs with
     | nil => simp [segLines]
@@ -290,7 +290,7 @@ theorem block_roundtrip (bname : Str) (cats : List (Str × Cols)) (hb : NameOk b
       · exact h2.nonl l hl
       · simp at hl; subst hl; decide
       · exact ih l hl
-  have hnl : ∀ l ∈ (sData ++ bname) :: ['#'] :: segLines Ws, '\n' ∉ l := by
+  have hnl : ∀ l ∈ (sData ++ bname) :: ['#'] :: segLines Ws, NoBreak l := by
     intro l hl
     simp only [List.mem_cons] at hl
     rcases hl with rfl | rfl | hl
